@@ -8,7 +8,7 @@
     for every registry state and every description that [type_build] accepts. *)
 From Coq Require Import List NArith Bool String.
 From PyxisModel Require Import Base Grammar SemTypes Registry Sem RustLayout LayoutLemmas SemLemmas
-     PlacementLemmas Examples.
+     PlacementLemmas WholeBuild Examples.
 Import ListNotations.
 Local Open Scope N_scope.
 
@@ -52,3 +52,34 @@ Example C01_example :
   exists st r, ex_state 4 = Some st /\ reg_u8 (st_reg st) /\
                resolved_of st ["m"; "T"]%string = Some r /\ rs_size r = 32.
 Proof. vm_compute. eexists; eexists; repeat split; reflexivity. Qed.
+
+(** ** End to end.  For every accepted build whose input is [collision_free] (see C02.v; decidable;
+    false without it, open finding F4b) and every struct the input declares: each declared named
+    field that is kept sits, under the Reference's algorithm applied with the FINAL registry's sizes
+    and alignments, at its declared address or at the end of its predecessor.  [pending] is the list
+    of declared fields as [process_statement] read them in the state [R_mid] of the successful
+    attempt; every size known in [R_mid] is the same in the final registry. *)
+Theorem C01_whole_build : forall order ptr mods st0 st p it0 gd td0 it r,
+  input_state ptr mods = Ok st0 -> collision_free (st_reg st0) ->
+  pyxis_resolve order ptr mods = BOk st ->
+  reg_get (st_reg st0) p = Some it0 -> it_state it0 = Unresolved gd -> gi_inner gd = GIType td0 ->
+  reg_get (st_reg st) p = Some it -> it_state it = Resolved r ->
+  exists td R_mid module n pending vfs start,
+    rs_inner r = IType td /\
+    ext (st_reg st0) (st_reg st0) R_mid /\ ext (st_reg st0) R_mid (st_reg st) /\
+    foldM (process_statement R_mid (module_scope module)) (gt_stmts td0) (O, ([], None))
+      = Ok (n, (pending, vfs)) /\
+    let R := st_reg st in
+    let fs := map (region_sa R) (td_regions td) in
+    (start = 0 \/ (start = reg_ptr R /\
+                   exists ty, hd_error (td_regions td) = Some (vftable_region_of (TConstPtr ty)))) /\
+    Forall (fun x => r_name (snd x) <> None ->
+                     In x (combine (field_offsets (td_packed td) (rs_align r) fs) (td_regions td)))
+           (declared_offsets R start pending).
+Proof. exact whole_build_offsets. Qed.
+Print Assumptions C01_whole_build.
+
+(** the hypothesis [reg_u8] of [C01_main] holds in every state pyxis can be in *)
+Theorem C01_u8_always : forall ptr mods st0, input_state ptr mods = Ok st0 -> reg_u8 (st_reg st0).
+Proof. exact input_state_u8. Qed.
+Print Assumptions C01_u8_always.
